@@ -62,6 +62,9 @@ type Case struct {
 	// type-check (known finding std-fails-under-low-go-flag), so generated cases
 	// only import std when -go is "module" or >= go1.22.
 	Imports bool   `json:"imports"`
+	// PrevGo, if set, is the -go value of an earlier run over the same files that shares the
+	// cache with the judged run (a stale cache entry must not make -go ineffective).
+	PrevGo string `json:"prev_go,omitempty"`
 	Mod     string `json:"mod"` // go directive, e.g. "1.20" or "1.22.3"
 	GoFlg string     `json:"go"`  // "module" or "go1.N"
 	Files []FileSpec `json:"files"`
@@ -81,6 +84,19 @@ func genCase(t *rapid.T) *Case {
 	c.Imports = c.GoFlg == "module" || version.Compare(c.GoFlg, "go1.22") >= 0
 	if !c.Imports {
 		ev.Count("cases_without_std_imports_because_of_known_finding", 1)
+	}
+	if rapid.IntRange(0, 1).Draw(t, "hasprev") == 0 {
+		lo := 22
+		if !c.Imports {
+			lo = 16
+		}
+		c.PrevGo = fmt.Sprintf("go1.%d", rapid.IntRange(lo, 26).Draw(t, "prevgo"))
+		if rapid.IntRange(0, 3).Draw(t, "prevmodule") == 0 {
+			c.PrevGo = "module"
+		}
+		if !c.Imports && c.PrevGo != "module" && version.Compare(c.PrevGo, "go1.22") < 0 {
+			// fine: nothing from std is type-checked for an import-free package
+		}
 	}
 	c.Files = append(c.Files, FileSpec{Name: "a.go"})
 	n := rapid.IntRange(1, 3).Draw(t, "ntagged")
@@ -189,6 +205,11 @@ func evaluate(c *Case, dir string) (msg string, infra string) {
 	}
 	var sb strings.Builder
 	known := false
+	if c.PrevGo != "" && c.PrevGo != c.GoFlg && (!c.Imports || c.PrevGo == "module" || version.Compare(c.PrevGo, "go1.22") >= 0) {
+		// earlier run with another -go on the same files and the same (per-process) cache; its results are not judged
+		rn.Run(rn.Options{Dir: dir, GoVersion: c.PrevGo}, checks, []string{"."}, func([]runner.Result) error { return nil })
+		ev.Count("cases_with_earlier_run_under_other_go_flag", 1)
+	}
 	err := rn.Run(rn.Options{Dir: dir, GoVersion: c.GoFlg}, checks, []string{"."}, func(res []runner.Result) error {
 		type key struct{ file, kind string }
 		got := map[key]map[string]bool{}
